@@ -66,6 +66,12 @@ def fmt_hs(quick):
     return ["c09f::" + n for n in names if not (quick and n in slow)]
 
 
+# harnesses without symbolic inputs (every value is a constant of the harness): the Kani run of such a harness is a concrete
+# execution under CBMC's memory / overflow checks; the driver ALSO runs them natively (replay binary), because a change can push
+# a concrete harness into a path CBMC cannot finish (core::fmt padding: > 600 s), which would leave it undecided
+CONCRETE_HARNESS = _re.compile(r"^(c09f::|c16::c16_serde_human_|c16::c16_pg_numeric_|c14::c14_reciprocal_rows_|c02::c02_mul_grid_|c13::fl::c13_log10_pow10_|c13::fl::c13_log_samples_)")
+
+
 W_Q = ["w0", "w1", "w8", "w60", "w64", "w65", "w128", "w192"]
 W_T = W_Q + ["w250", "w256"]
 
